@@ -112,6 +112,8 @@ class SOCKS4(SOCKSBase):
         self._remote_host = remote_address.host
         self._remote_port = remote_address.port
         self._auth = auth
+        if isinstance(auth, SOCKSUserAuth) and '\0' in auth.username:
+            raise SOCKSProtocolError('SOCKS4 user ID cannot contain a NUL character')
         self._check_remote_host()
 
     def _check_remote_host(self):
